@@ -876,30 +876,7 @@ func (f *Frame) multipleOf(x Poly, d int64) bool {
 	return true
 }
 
-// loopBody returns the natural loop of header h (nil if h is not a loop header).
-func loopBody(h *ssa.BasicBlock) map[*ssa.BasicBlock]bool {
-	body := map[*ssa.BasicBlock]bool{}
-	var work []*ssa.BasicBlock
-	for _, p := range h.Preds {
-		if h.Dominates(p) {
-			work = append(work, p)
-		}
-	}
-	if len(work) == 0 {
-		return nil
-	}
-	body[h] = true
-	for len(work) > 0 {
-		b := work[0]
-		work = work[1:]
-		if body[b] {
-			continue
-		}
-		body[b] = true
-		work = append(work, b.Preds...)
-	}
-	return body
-}
+func loopBody(h *ssa.BasicBlock) map[*ssa.BasicBlock]bool { return engine.LoopBody(h) }
 
 // tripCount of the loop with header h.
 func (f *Frame) tripCount(h *ssa.BasicBlock, body map[*ssa.BasicBlock]bool) Poly {
